@@ -216,3 +216,12 @@ impl RhythmEvaluator {
         -multiplier * f64::powf(f64::cos(f64::from(denominator) * PI * ratio), power)
     }
 }
+
+#[cfg(rosu_pp_verif)]
+impl Rhythm {
+    /// Verification hook: the value `strain_value_at` returned for every
+    /// processed difficulty object.
+    pub fn verif_object_strains(&self) -> &[f64] {
+        &self.strain_skill_object_strains
+    }
+}
